@@ -3,7 +3,7 @@
    sweep of the 128/64 division algorithm at 3-bit halves. *)
 From Coq Require Import Arith NArith ZArith List Bool Lia Psatz.
 From Coq Require Import ZifyBool ZifyNat ZifyN.
-From Qv Require Import BigIntModel BigIntProofs BigIntProofs2 BigIntHelpers BigIntShift BigIntShiftL BigIntBits BigIntFfb BigIntWide BigIntNarrow BigIntSetWide.
+From Qv Require Import BigIntModel BigIntProofs BigIntProofs2 BigIntHelpers BigIntShift BigIntShiftL BigIntBits BigIntFfb BigIntWide BigIntNarrow BigIntSetWide BigIntOrAnd.
 Import ListNotations.
 Local Open Scope N_scope.
 
@@ -16,9 +16,9 @@ Section W.
 
   (* the operations whose refinement is PROVED (the others are tied by the
      correspondence run only): Add / Subtract at any word index, += / -= of a word,
-     (operand type at most one word wide, or at least two words wide), Multiply, Divide, ShiftLeft,
-     ShiftRight, Clear, = |= &= with an operand type at most one word wide, copy-assignment from a
-     BigInt built from such an operand, FindFirstBit, FindLastBit, the comparison family *)
+     = |= &= and copy-assignment from a constructed BigInt (operand type at most one word wide, or at
+     least two words wide), Multiply, Divide, ShiftLeft, ShiftRight, Clear, FindFirstBit, FindLastBit,
+     the comparison family, the conversion operator: i.e. EVERY operation of the model *)
   Inductive proved_op : op -> Prop :=
   | P_AddAt : forall v i, proved_op (OAddAt v i)
   | P_SubAt : forall v i, proved_op (OSubAt v i)
@@ -30,13 +30,25 @@ Section W.
   | P_Shr : forall k, proved_op (OShr k)
   | P_Clear : proved_op OClear
   | P_Set : forall ow v, ow <= w \/ 2 * w <= ow -> proved_op (OSet ow v)
-  | P_And : forall ow v, ow <= w -> proved_op (OAnd ow v)
-  | P_Or : forall ow v, ow <= w -> proved_op (OOr ow v)
+  | P_And : forall ow v, ow <= w \/ 2 * w <= ow -> proved_op (OAnd ow v)
+  | P_Or : forall ow v, ow <= w \/ 2 * w <= ow -> proved_op (OOr ow v)
   | P_Copy : forall ow v, ow <= w \/ 2 * w <= ow -> proved_op (OCopy ow v)
   | P_Narrow : forall tw, (tw <= w \/ exists c : nat, (2 <= c)%nat /\ tw = w * N.of_nat c) -> proved_op (ONarrow tw)
   | P_Ffb : proved_op OFfb
   | P_Flb : proved_op OFlb
   | P_Cmp : forall v, proved_op (OCmp v).
+
+  (* the only side conditions: operand / target TYPES are at most one word or a whole number (>= 2)
+     of words wide -- true of uint8/16/32/64 operands on uint8/16/32/64 words *)
+  Definition op_types_ok (o : op) : Prop :=
+    match o with
+    | OSet ow _ | OAdd ow _ | OSub ow _ | OOr ow _ | OAnd ow _ | OCopy ow _ => ow <= w \/ 2 * w <= ow
+    | ONarrow tw => tw <= w \/ exists c : nat, (2 <= c)%nat /\ tw = w * N.of_nat c
+    | _ => True
+    end.
+
+  Lemma proved_op_all : forall o, op_types_ok o -> proved_op o.
+  Proof. intros o H. destruct o; cbn [op_types_ok] in H; constructor; assumption. Qed.
 
   Lemma lim_pw : forall n, 2 ^ (w * N.of_nat n) = pw n.
   Proof. intros n. symmetry. apply pw_bits. Qed.
@@ -194,14 +206,24 @@ Section W.
       rewrite Hrun. cbn [bind]. exists s'. repeat split; try apply HWF'; auto; lia.
     - destruct (N.ltb_spec v (2 ^ ow)) as [Hvo|]; [|discriminate].
       destruct (N.ltb_spec v (pw n)) as [Hfit|]; [|discriminate]. cbn [andb] in Hs. inversion Hs; subst v' r.
-      destruct (do_operation_le KAnd ow s v How Hvo) as (Eop & Hv). rewrite Eop.
-      destruct (and_word_correct w s v HWF Hv) as (s' & Hrun & HWF' & Hval & Hl).
-      rewrite Hrun. cbn [bind]. exists s'. repeat split; try apply HWF'; auto; lia.
+      destruct How as [How|How].
+      + destruct (do_operation_le KAnd ow s v How Hvo) as (Eop & Hv). rewrite Eop.
+        destruct (and_word_correct w s v HWF Hv) as (s' & Hrun & HWF' & Hval & Hl).
+        rewrite Hrun. cbn [bind]. exists s'. repeat split; try apply HWF'; auto; lia.
+      + unfold do_operation. destruct (N.eqb_spec ow w) as [|_]; [lia|].
+        assert (H2 : 1 < ow / w) by (assert (2 <= ow / w) by (apply N.div_le_lower_bound; lia); lia).
+        destruct (and_wide_correct w w_pos ow s v H2 HWF ltac:(rewrite Hn; exact Hfit)) as (s' & Hrun & HWF' & Hval & Hl).
+        rewrite Hrun. cbn [bind]. exists s'. repeat split; try apply HWF'; auto; lia.
     - destruct (N.ltb_spec v (2 ^ ow)) as [Hvo|]; [|discriminate].
       destruct (N.ltb_spec v (pw n)) as [Hfit|]; [|discriminate]. cbn [andb] in Hs. inversion Hs; subst v' r.
-      destruct (do_operation_le KOr ow s v How Hvo) as (Eop & Hv). rewrite Eop.
-      destruct (or_word_correct w s v HWF Hv) as (s' & Hrun & HWF' & Hval & Hl).
-      rewrite Hrun. cbn [bind]. exists s'. repeat split; try apply HWF'; auto; lia.
+      destruct How as [How|How].
+      + destruct (do_operation_le KOr ow s v How Hvo) as (Eop & Hv). rewrite Eop.
+        destruct (or_word_correct w s v HWF Hv) as (s' & Hrun & HWF' & Hval & Hl).
+        rewrite Hrun. cbn [bind]. exists s'. repeat split; try apply HWF'; auto; lia.
+      + unfold do_operation. destruct (N.eqb_spec ow w) as [|_]; [lia|].
+        assert (H2 : 1 < ow / w) by (assert (2 <= ow / w) by (apply N.div_le_lower_bound; lia); lia).
+        destruct (or_wide_correct w w_pos ow s v H2 HWF ltac:(rewrite Hn; exact Hfit)) as (s' & Hrun & HWF' & Hval & Hl).
+        rewrite Hrun. cbn [bind]. exists s'. repeat split; try apply HWF'; auto; lia.
     - destruct (N.ltb_spec v (2 ^ ow)) as [Hvo|]; [|discriminate].
       destruct (N.ltb_spec v (pw n)) as [Hfit|]; [|discriminate]. inversion Hs; subst v' r.
       assert (Hn0 : (0 < length (words s))%nat) by (destruct HWF as ((_ & Hi & _) & _); lia).
@@ -258,6 +280,34 @@ Section W.
       + apply IH; auto. rewrite Hval. exact Er.
   Qed.
 
+  (* the model passes the oracle that judges the C++ in the correspondence run *)
+  Fixpoint oks (l : list (res (bigint * N))) : list (nat * list N * N) :=
+    match l with
+    | Ok (s, r) :: t => (index s, words s, r) :: oks t
+    | _ => []
+    end.
+
+  Lemma wordsok_forallb : forall l, wordsok w l -> forallb (fun x => x <? B) l = true.
+  Proof.
+    intros l H. apply forallb_forall. intros x Hx. unfold wordsok in H. rewrite Forall_forall in H.
+    apply N.ltb_lt, H, Hx.
+  Qed.
+
+  Theorem model_passes_oracle : mul2_ok w -> div2_ok w -> forall n ops s,
+    Forall proved_op ops -> WF w s -> length (words s) = n ->
+    oracle w n (bval s) ops (oks (run_ops w s ops)) = true.
+  Proof.
+    intros Hmul Hdiv n ops. induction ops as [|o rest IH]; intros s Hp HWF Hn; [reflexivity|].
+    inversion Hp as [|? ? Hpo Hprest]; subst. cbn [oracle].
+    destruct (spec_op w (length (words s)) (bval s) o) as [[v' r]|] eqn:Eo; [|reflexivity].
+    destruct (step_correct Hmul Hdiv _ s o v' r Hpo HWF eq_refl Eo) as (s' & Hrun & HWF' & Hval & Hl).
+    cbn [run_ops]. rewrite Hrun. cbn [oks].
+    apply andb_true_iff. split.
+    - unfold step_ok. rewrite Hl, Nat.leb_refl. rewrite (wordsok_forallb _ (proj1 (proj1 HWF'))).
+      unfold BigIntProofs.bval in Hval. rewrite Hval, N.eqb_refl. rewrite <- Hval.
+      fold (bval s'). rewrite <- (WF_index_top s' HWF'), Nat.eqb_refl, N.eqb_refl. reflexivity.
+    - rewrite <- Hval. apply IH; auto.
+  Qed.
 End W.
 
 (* ------------------------------------------------------------------------- *)
@@ -331,7 +381,7 @@ Qed.
 
 Example history_nonvacuous :
   let ops := [OSet 64 18446744073709551615; OShr 9; OMul 255; OAdd 64 4294967296; OSub 8 7; ODiv 129;
-              OShl 13; OFfb; OFlb; OCmp 5; ONarrow 16; OAnd 8 240; OOr 8 1; OCopy 64 65536; OClear] in
+              OShl 13; OFfb; OFlb; OCmp 5; ONarrow 16; OAnd 64 1099511627775; OOr 32 16777217; OCopy 64 65536; OClear] in
   Forall (proved_op 8) ops /\ exists outs, spec_run 8 9 0 ops = Some outs /\ length outs = 15%nat.
 Proof.
   split.
